@@ -60,28 +60,7 @@ Theorem C13_within_limit_delivered : forall c st lf f rest,
   (r_utf8 c && (f_op f =? 1) && negb (utf8_valid (f_payload f))) = false ->
   exists st', read_message utf8_valid inflate W wdict wwrite c st (encode_frame lf f ++ rest)
               = SCont W [EvMsg (f_op f) (f_payload f)] st' rest.
-Proof.
-  intros c st lf f rest Hwf Hlf Hn Hc Hinit Hop Hfin H1 H2 H3 Hm Hsz Hu.
-  assert (Hst : st_ok W st) by (unfold st_ok; rewrite Hinit; discriminate).
-  pose proof (read_message_refines utf8_valid inflate W wdict wwrite c st lf f rest Hwf Hlf Hn Hc Hst) as R.
-  assert (Hcur : s_cur W (abs W st) = None) by (unfold abs; cbn; rewrite Hinit; reflexivity).
-  assert (Hnil : violations W (scfg_of c) (abs W st) f (minimal_of lf (N.of_nat (length (f_payload f)))) = []).
-  { unfold violations. rewrite Hcur, H1, H2, H3, Hm. cbn [scfg_of s_server s_pmd s_limit].
-    rewrite Bool.eqb_reflx. cbn [orb andb].
-    assert (Hk : op_known (f_op f) = true) by (destruct Hop as [-> | ->]; reflexivity).
-    assert (Hnc : is_control (f_op f) = false) by (destruct Hop as [-> | ->]; reflexivity).
-    rewrite Hk, Hnc. cbn [andb].
-    replace (f_op f =? 0) with false by (destruct Hop as [-> | ->]; reflexivity). cbn [andb].
-    rewrite Bool.andb_false_r.
-    replace (r_limit c <? Z.of_nat (length (f_payload f)))%Z with false by lia. reflexivity. }
-  unfold Rfc6455Recv.recv_frame in R. rewrite Hnil in R.
-  replace (f_op f =? 9) with false in R by (destruct Hop as [-> | ->]; reflexivity).
-  replace (f_op f =? 10) with false in R by (destruct Hop as [-> | ->]; reflexivity).
-  replace (f_op f =? 8) with false in R by (destruct Hop as [-> | ->]; reflexivity).
-  replace (f_op f =? 0) with false in R by (destruct Hop as [-> | ->]; reflexivity).
-  rewrite Hfin, H1 in R. unfold complete in R. cbn [scfg_of s_utf8] in R. rewrite Hu in R.
-  cbn [refines_step] in R. destruct R as (st' & Hr & _). exists st'. exact Hr.
-Qed.
+Proof. exact (within_limit_delivered utf8_valid inflate W wdict wwrite). Qed.
 End C13.
 
 (* non-vacuity: limit 4; a 4-byte message is delivered, a 5-byte one answered 1009, 3+2 bytes in fragments answered 1009 *)
